@@ -10,6 +10,7 @@ package c11
 
 import (
 	"encoding/json"
+	"errors"
 	"fmt"
 	"math/rand/v2"
 	"os"
@@ -17,6 +18,8 @@ import (
 	"strconv"
 	"strings"
 	"time"
+
+	"github.com/codenotary/immudb/embedded/store"
 
 	"verifharness/internal/fw"
 )
@@ -115,7 +118,7 @@ func runCase(c *fw.Ctx, cs caseSpec) {
 		if iv.Null && s.col("i0").NotNull || r.IntN(6) == 0 {
 			iv = val{Null: true}
 		}
-		rn.apply(step{Kind: "insert-d", Tpl: fmt.Sprintf("INSERT INTO {D}(k, iv, sv) VALUES (%d, %s, %s)", k, iv.lit(), sv.lit())})
+		rn.apply(step{Kind: "insert-d", Tpl: fmt.Sprintf("INSERT INTO {D}(k, iv, sv) VALUES (%d, %s, %s)", s.dKey(k), iv.lit(), sv.lit())})
 	}
 
 	// phase A: first data
@@ -142,7 +145,7 @@ func runCase(c *fw.Ctx, cs caseSpec) {
 	// phase B
 	for i := 0; i < 16 && !rn.aborted; i++ {
 		if i%6 == 5 {
-			k := 1 + r.IntN(10)
+			k := s.dKey(1 + r.IntN(10))
 			if r.IntN(2) == 0 {
 				rn.apply(step{Kind: "update-d", Tpl: fmt.Sprintf("UPDATE {D} SET iv = %s WHERE k = %d", s.pick(r, s.col("i0")).lit(), k)})
 			} else {
@@ -333,7 +336,7 @@ func (rn *runner) apply(st step) {
 	b := rn.e.run(subst("SELECT * FROM "+tbl, twins[1]))
 	rn.c.Eval(1)
 	if a.Err != nil || b.Err != nil {
-		if (a.Err == nil) != (b.Err == nil) {
+		if (a.Err == nil) != (b.Err == nil) && !resourceRefusal(a.Err) && !resourceRefusal(b.Err) {
 			rn.violation("twin-tables/dml-"+st.Kind+where+tag+"/full-scan-error-on-one-side", fmt.Sprintf("after %s: SELECT * fails on one twin only: %v / %v", st.Tpl, a.Err, b.Err), a, b)
 			rn.aborted = true
 		}
@@ -419,6 +422,11 @@ func (rn *runner) compare(relation, shape, stage string, a, b *result, ordered b
 	}
 	if a.Err != nil && b.Err != nil {
 		rn.c.Count("pairs_rejected_on_both", 1)
+		return
+	}
+	if resourceRefusal(a.Err) || resourceRefusal(b.Err) {
+		// the read set of a read-write transaction is bounded: a refusal the API is allowed to give
+		rn.c.Count("pairs_refused_for_resources", 1)
 		return
 	}
 	rn.c.Eval(1)
@@ -588,6 +596,12 @@ func (rn *runner) ternary(q *query, p *prepared, stage string, base *result, w s
 		rn.c.Count("pairs_rejected_on_both", 1)
 		return
 	}
+	for _, r := range rs {
+		if resourceRefusal(r.Err) {
+			rn.c.Count("pairs_refused_for_resources", 1)
+			return
+		}
+	}
 	rn.c.Eval(1)
 	if nerr > 0 {
 		var bad *result
@@ -641,4 +655,8 @@ func errClass(err error) string {
 		}
 	}
 	return strings.Trim(sb.String(), "-")
+}
+
+func resourceRefusal(err error) bool {
+	return err != nil && errors.Is(err, store.ErrMVCCReadSetLimitExceeded)
 }
